@@ -1591,7 +1591,8 @@ chop_more:
 		p->six += slen;
 
 	proc:
-		if (p->six && (res = _ical_proc(p)) == NULL) {
+		if (!p->six || (res = _ical_proc(p)) == NULL) {
+			/* nothing to hand up yet, empty lines included */
 			goto chop_more;
 		}
 	}
